@@ -24,7 +24,7 @@ and many options to consider when collecting.
 import abc
 import types
 from collections.abc import Mapping
-from typing import List
+from typing import List, Optional
 
 from deep import logging
 from deep.api.tracepoint import VariableId, Variable
@@ -86,6 +86,18 @@ class Collector(abc.ABC):
         :return int: the configured value
         """
         pass
+
+    def max_name_length(self, value) -> Optional[int]:
+        """
+        Get the most characters the names of the children of a dictionary can have.
+
+        The keys of a dictionary are data of the program and held to the string limit like the values. The names of
+        the variables of a frame (collected as a dictionary as well) are not.
+
+        :param value: the dictionary
+        :return: the limit, or None for no limit
+        """
+        return self.max_string_length
 
     @property
     @abc.abstractmethod
@@ -360,7 +372,8 @@ def find_children_for_parent(var_collector: Collector, parent_node: ParentNode, 
     :return: list of child nodes
     """
     if variable_type is dict:
-        return process_dict_breadth_first(parent_node, type_name(variable_type), value)
+        return process_dict_breadth_first(parent_node, type_name(variable_type), value,
+                                          max_name_length=var_collector.max_name_length(value))
     elif variable_type in LIST_LIKE_CLASSES:
         return process_list_breadth_first(var_collector, parent_node, value)
     elif issubclass(variable_type, Exception):
@@ -400,7 +413,7 @@ def instance_attributes(value):
     return None
 
 
-def process_dict_breadth_first(parent_node, type_name, value, func=lambda x, y: y) -> List[Node]:
+def process_dict_breadth_first(parent_node, type_name, value, func=lambda x, y: y, max_name_length=None) -> List[Node]:
     """
     Process a dict value.
 
@@ -410,14 +423,19 @@ def process_dict_breadth_first(parent_node, type_name, value, func=lambda x, y: 
     :param (str) type_name: the name of the type we are processing
     :param (any) value: the list value to process
     :param (Callable) func: an optional function to preprocess values
+    :param (int) max_name_length: the most characters a name can have. The names are keys of the dictionary: data of
+                                  the program, which is held to the string limit like the values (None for no limit)
+
     :param func:
     :return (list): the collected child nodes
     """
+    def cut(name):
+        return name if max_name_length is None else name[:max(max_name_length, 0)]
     # we wrap the items() in a call to list to prevent concurrent changes. The items, not the keys and a second look up
     # of each: that would ask the key for its hash again, which can have changed since it was put in (the entry would
     # be missing without a word) or raise
     return [Node(value=NodeValue(func(type_name, name), item, name), parent=parent_node) for name, item in
-            [(key_to_name(key), item) for key, item in list(value.items())]]
+            [(cut(key_to_name(key)), item) for key, item in list(value.items())]]
 
 
 def key_to_name(key) -> str:
